@@ -79,7 +79,7 @@ T_Res == /\ Ev("res")
 T_Silent == /\ \/ S_Begin \/ S_Iter \/ (S_Fallback /\ sph' # "done") \/ (S_LookupDone /\ sph' # "done")
                \/ L_ADone \/ L_Join
                \/ Q_RunQuery \/ Q_Timeout \/ (Q_Classify /\ qph' # "ret")
-               \/ R_Init \/ R_Timer \/ R_WaitEmpty \/ \E s \in Servers : R_Complete(s)
+               \/ R_Init \/ R_Timer \/ R_WaitEmpty \/ R_CompleteAny
             /\ l' = l
 
 TNext == T_Conf \/ T_Q \/ T_Req \/ T_Ans \/ T_Res \/ T_Silent
